@@ -15,7 +15,7 @@ def _limits(line):
 PROPS = {
     'C01': dict(streams=['C01'], sweeps=['roundtrip J -2147483648 2147483647', 'roundtrip G -2147483648 2147483647', 'roundtrip X -2147483648 2147483647'],
                 rule='reforming calendar (gap logic active), or within the 32-bit / range-end neighbourhood', nontrivial=lambda l: _window(l) or _limits(l)),
-    'C02': dict(streams=['C02'], sweeps=[], rule='negative or range-end year, or year_kind query, or refused construction',
+    'C02': dict(streams=['C02'], search_streams=['C05', 'C07'], relevant=lambda l: bool(re.match(r'^(at_jdn|at_ymd|at_ordinal_date|year_kind|year_length) [JG] ', l)), sweeps=[], rule='negative or range-end year, or year_kind query, or refused construction',
                 nontrivial=lambda l: ' -' in l or _limits(l) or l.startswith('year_kind')),
     'C03': dict(streams=['C03'], sweeps=[], rule='reforming calendar case (day near the reformation) or boundary accessor',
                 nontrivial=lambda l: _window(l)),
@@ -61,7 +61,7 @@ ORACLE_KINDS = {
     'C08': ['year_kind', 'year_length', 'month_sum'],
     'C09': ['month_shape', 'shape_', 'nth_day', 'days_panic'],
     'C10': ['succ', 'pred'],
-    'C11': ['label_not_monotone', 'at_jdn_ordinal'],
+    'C11': ['label_not_monotone', 'at_jdn_ordinal', 'at_ymd_errkind', 'at_ymd_wrong'],
     'C12': ['reforming_panic'],
 }
 ORACLE_SWEEPS = ['oracle 1830692 3200000 1', 'oracle 1830692 2147439588 20011', 'oracle 19500000 19700000 7', 'oracle 2147000000 2147439588 97', 'oracle_proleptic']
